@@ -71,6 +71,15 @@ CLAIMED = {
             'Trusted: mc/ref.py; generated terms are filtered by thy.check_term and the reference type checker (dropped ones are counted). '
             'Nesting depth 2 (thorough 3).',
             'DESIGN.md §3 C07'),
+    'C17': ('model_checking',
+            'explicit-state exploration of all merge/test/explain sequences on the real congruence-closure objects, naive-closure oracle',
+            'All sequences of <=4 (thorough 5; 4 over four constants) merges of flat equations x=y / f(x,y)=z are replayed on fresh '
+            'CongClosure objects; after every prefix every pair is queried with test and explain (queries interleaved with merges), compared '
+            'with a naive fixpoint closure, explanation paths are replayed, and the structure must be unchanged by queries. The HOL wrapper '
+            'is explored with all sequences of <=3 merges over curried terms; every explanation is exported and checked by the kernel '
+            '(conclusion, hypotheses/gaps among the merged equations).',
+            'Trusted: naive closure (complete for ground EUF on the finite universe), kernel checker. No state merging.',
+            'DESIGN.md §3 C17'),
 }
 
 PENDING_REASON = 'check not built yet in this round (planned, see DESIGN.md §3/§7); not claimed until its machinery exists'
